@@ -6,6 +6,7 @@ names="$@"; [ -z "$names" ] && names=$(ls -d C??-? | tr '\n' ' ')
 one() {
   n=$1
   ids=$(python3 -c "import json;print(' '.join(json.load(open('/verif/seeded/$n/meta.json'))['caught_by']))")
+  if python3 -c "import json,sys;sys.exit(0 if json.load(open('/verif/seeded/$n/meta.json')).get('status','').startswith('obsolete') else 1)"; then echo "$n skipped (obsolete, see meta.json)"; return; fi
   out=$(/verif/tools/seedtest.sh /verif/seeded/$n $ids 2>&1)
   bad=""
   for c in $ids; do echo "$out" | grep -q "== $c rc=1" || bad="$bad $c"; done
